@@ -261,6 +261,9 @@ func ruleRenderStores(c *Ctx) []Obligation {
 				continue
 			}
 			total++
+			if c.onceEffect(ef) {
+				continue // verified initialise-once state: the same value whoever gets there first
+			}
 			if ef.Kind == "mapupdate" && ef.Field == "jen.File."+c.ff("imports") && ef.Via == fname(reg) {
 				continue
 			}
@@ -447,6 +450,9 @@ func ruleRegisterCallers(c *Ctx) []Obligation {
 			}
 			// token.render itself, the list renderer, or an unexported helper called only by token.render
 			isListRenderer := func(g *ssa.Function) bool {
+				if g == c.role("renderItems") {
+					return true // also when its null test and its render call sit in helpers
+				}
 				ga := c.FA(g)
 				return len(ga.invokes(c.renderName())) > 0 && len(ga.invokes(c.nullName())) > 0
 			}
@@ -636,11 +642,18 @@ func (c *Ctx) globalUseOK(v ssa.Value, depth int) (bool, string) {
 						}
 						for _, ef := range sum.Effects {
 							if ef.Root.Kind == "param" && ef.Root.Idx == i && (ef.Kind == "store" || ef.Kind == "mapupdate" || ef.Kind == "extmut") {
+								if c.onceEffect(ef) {
+									continue // initialise-once state of the value passed
+								}
 								bad = true
 							}
 						}
 						if sum.Returns[Root{Kind: "param", Idx: i}] {
-							bad = true
+							// an accessor of initialise-once state hands out the guarded value, which
+							// nothing stores to after its initialiser ran
+							if !(c.onceFacts().syncVerified() && c.returnsOnlyOnceFields(sc)) {
+								bad = true
+							}
 						}
 					}
 					if !bad {
@@ -718,6 +731,10 @@ func ruleGlobalsRO(c *Ctx) []Obligation {
 	}
 	sort.Strings(names)
 	for _, n := range names {
+		if of := c.onceFacts(); of.globals[n] && len(of.bad) == 0 {
+			o.add(Discharged, "jen."+n, "package-level variable is initialise-once state", pos[n], true, "a sync.Once, or written only by the function handed to its Do and read only after a Do")
+			continue
+		}
 		if why, isBad := bad[n]; isBad {
 			o.add(Violated, "jen."+n, "package-level variable is not read-only", pos[n], true, "%s — hidden global state makes one File's output depend on others / races", why)
 		} else {
@@ -774,6 +791,15 @@ func ruleNoConcurrency(c *Ctx) []Obligation {
 	for _, p := range c.Jen.Pkg.Imports() {
 		imps = append(imps, p.Path())
 		if forbidden[p.Path()] {
+			if of := c.onceFacts(); p.Path() == "sync" && of.syncVerified() {
+				// the one use of shared state that keeps the library's shape: values built on first
+				// use, verified by W-ONCE's conditions (rules_once.go)
+				o.add(Discharged, "jen", "sync is used for initialise-once state only", token.NoPos, true, "%d calls of (*sync.Once).Do; every store to the guarded locations lies in the initialiser, every read follows a Do, the initialisers are deterministic", of.sites)
+				continue
+			} else if p.Path() == "sync" && of.sites > 0 {
+				o.add(Violated, "jen", "imports "+p.Path(), token.NoPos, true, "shared-state package imported by jen; its use is not the verified initialise-once idiom: %s %s", strings.Join(of.other, ", "), strings.Join(of.bad, "; "))
+				continue
+			}
 			o.add(Violated, "jen", "imports "+p.Path(), token.NoPos, true, "shared-state / unsafe package imported by jen")
 		}
 		if p.Path() == "reflect" {
@@ -2255,4 +2281,54 @@ func (c *Ctx) importsStoreHelperOK(h *ssa.Function, mu *ssa.MapUpdate, reg *ssa.
 		}
 	}
 	return sites > 0
+}
+
+// onceEffect: the effect is part of verified initialise-once state (the Do call itself, or a store to
+// a guarded field / package-level variable).
+func (c *Ctx) onceEffect(ef Effect) bool {
+	of := c.onceFacts()
+	if len(of.bad) > 0 || of.sites == 0 {
+		return false
+	}
+	if ef.Kind == "extmut" && strings.Contains(ef.What, "(*sync.Once).Do") {
+		return true
+	}
+	if ef.Field != "" && (of.fields[ef.Field] || of.fields[strings.TrimPrefix(ef.Field, "jen.")]) {
+		return true
+	}
+	if ef.Root.Kind == "global" && of.globals[strings.TrimPrefix(ef.Root.Name, "jen.")] && ef.Kind == "store" {
+		return true
+	}
+	return false
+}
+
+// returnsOnlyOnceFields: every return of f yields the value of a field that is verified
+// initialise-once state (loaded after the Do call: W-ONCE's read condition).
+func (c *Ctx) returnsOnlyOnceFields(f *ssa.Function) bool {
+	of := c.onceFacts()
+	n := 0
+	for _, b := range f.Blocks {
+		if len(b.Instrs) == 0 {
+			continue
+		}
+		ret, ok := b.Instrs[len(b.Instrs)-1].(*ssa.Return)
+		if !ok {
+			continue
+		}
+		for _, res := range ret.Results {
+			if !isPointerLike(res.Type()) {
+				continue
+			}
+			u, ok := res.(*ssa.UnOp)
+			if !ok || u.Op != token.MUL {
+				return false
+			}
+			loc, name := storeTarget(u.X)
+			if !((loc == "field" && of.fields[name]) || (loc == "global" && of.globals[name])) {
+				return false
+			}
+			n++
+		}
+	}
+	return n > 0
 }
